@@ -73,6 +73,23 @@ fn explore(ctx: &mut Ctx) {
     let l = ctx.by_tier(5, 6);
     gen::for_each_seq(&[0u8, b'a', 0xc3, 0xa9, 0x80], l, |s| eval(ctx, s));
     ctx.exhaustive_part(&format!("all byte strings of length <= {l} over {{0x00,'a',0xC3,0xA9,0x80}} (valid and invalid UTF-8 before the nul)"));
+    // long byte strings (beyond the exhaustive bound): every length 0..=100 with no nul / exactly one nul at every
+    // position / a second nul right after or at the end
+    for len in 0..=100usize {
+        eval(ctx, &vec![b'a'; len]);
+        for p in 0..len {
+            let mut v = vec![b'a'; len];
+            v[p] = 0;
+            eval(ctx, &v);
+            if p + 1 < len {
+                v[len - 1] = 0;
+                eval(ctx, &v);
+                v[p + 1] = 0;
+                eval(ctx, &v);
+            }
+        }
+    }
+    ctx.exhaustive_part("lengths 0..=100: no nul, one nul at every position, plus a second nul at the end / right after");
     let n = ctx.by_tier(50_000, 1_000_000);
     let strat = proptest::collection::vec(prop_oneof![Just(0u8), Just(b'a'), any::<u8>()], 0..40);
     ctx.prop("cstr", n, strat, |ctx, v| {
